@@ -38,6 +38,7 @@ GEN_RELEVANT = {
     "C07": r"^(req_min|rep_min|rep_rejects)", "C08": r"^(req_min|rep_min|req_recv)", "C09": r"^(max_id)",
     "C11": r"^(pub_|xpub_|sub_op)", "C12": r"^(hwm)", "C13": r"^(sub_)", "C14": r"^(req_recv)",
     "C16": r"^(rep_disconnect|sub_disconnect|dealer_error|router_send_error|rep_send_error|req_send_error|req_recv_error)",
+    "C20": r"^(tcp_accept|ipc_accept)",
     "C17": r"^(generic_shutdown|rep_shutdown|sub_shutdown|xpub_shutdown|queue_clear|sockets_with_drop)",
 }
 
@@ -499,7 +500,7 @@ def prove(pid, gen_info, extra_targets=(), tier="quick"):
              "checker_cmd": "cd coq && coq_makefile -f _CoqProject <files> -o Makefile && make -j16 " + " ".join(targets),
              "pin_hash": pin_hash(pid), "gen_paths": gen_info.get("how", {})}
     if not ok:
-        m = re.search(r"File \"([^\"]+)\", line (\d+).*?\n(Error:.*?)(?:\n\n|\Z)", out, re.S)
+        m = re.search(r"File \"([^\"]+)\", line (\d+)[^\n]*\n(Error:.*?)(?:\n\n|\Z)", out, re.S)
         where = "%s:%s %s" % (m.group(1), m.group(2), " ".join(m.group(3).split())[:300]) if m else out[-400:]
         broken.append("proof obligation no longer checks: " + where)
     elif not ok_p:
